@@ -36,7 +36,9 @@ type RunSpec struct {
 	Files        []FileSpec        `json:"files,omitempty"` // files created before this run
 	Fuzz         []string          `json:"fuzz,omitempty"`  // hex inputs (entry fuzz): one sub-run per input
 	Entry        string            `json:"entry,omitempty"`
-	Warm         []string          `json:"warm,omitempty"`         // unrelated activity before the run (history independence)
+	Warm         []string          `json:"warm,omitempty"`       // unrelated activity before the run (history independence)
+	ExampleGen   *GenSpec          `json:"exampleGen,omitempty"` // entry "example": the generator whose Example(seed) is called
+	ExampleN     int               `json:"exampleN,omitempty"`
 	Expect       string            `json:"expect,omitempty"`       // relation to an earlier run the specification must check
 	ExpectRun    int               `json:"expectRun,omitempty"`    // which earlier run (1-based; 0 = the previous one)
 	StashPrev    bool              `json:"stashPrev,omitempty"`    // move the file saved by the previous run out of testdata (to ./stash) first
@@ -355,6 +357,21 @@ func RunScenario(t *testing.T, rec *Recorder, sc *Scenario) {
 				rapid.MakeCheck(prop)(st)
 			})
 			rec.Emit("run.end", F{"run": i + 1, "how": "subtest", "panic": "", "failed": failed, "failnow": failed, "skipped": skipped})
+		case "example":
+			// Generator.Example: every call of a Custom generator function is an invocation with its own context and cleanups
+			bg := r.genv.Build(run.ExampleGen)
+			for k := 0; k < run.ExampleN; k++ {
+				rec.Emit("example.begin", F{"run": i + 1, "k": k})
+				func() {
+					defer func() {
+						p := recover()
+						rec.Emit("example.end", F{"run": i + 1, "k": k, "panicked": p != nil})
+					}()
+					_ = bg.G.Example(k)
+				}()
+			}
+			r.resample(*r.exCtxs(), "after")
+			rec.Emit("run.end", F{"run": i + 1, "how": "example", "panic": "", "failed": false, "failnow": false, "skipped": false})
 		case "fuzz":
 			fz := rapid.MakeFuzz(prop)
 			inputs := [][]byte{}
